@@ -13,7 +13,7 @@ from ..index import AnalysisError, dotted
 from ..modes import Evaluator, Unrecognised
 from ..report import Ctx
 from .c12 import literal_value_frozenset
-from .common import call_nodes, cfg_of, guards
+from .common import atom_forces, bool_atoms, call_nodes, cfg_of, guards, reach_cut
 
 SAX = 'xmlschema.resources.sax'
 RES = 'xmlschema.resources.xml_resource.XMLResource'
@@ -130,29 +130,51 @@ def rule_c(ctx: Ctx) -> None:
     rule = 'C13.c'
     f = ctx.idx.func(f'{RES}.open')
     g = cfg_of(ctx, f)
-    tests = [n for n in g.nodes if n.kind == 'if' and text(n.ast.test) == 'self.is_defused()']
+    D = 'self.is_defused()'
+    tests = [n for n in g.nodes if n.kind == 'if' and D in bool_atoms(n.ast.test)]
     ctx.floor(rule, '`if self.is_defused()` in XMLResource.open', len(tests), 1)
+    if not tests:
+        ctx.ob(rule, 'open() consults is_defused()', f.loc(), False, 'no test of self.is_defused() in XMLResource.open: the stream is handed to the parser unscanned',
+               key=f'{RES}.open|scan')
+        return
     t = tests[0]
     scans = [n for n, c in call_nodes(g, lambda c: text(c.func) == 'defuse_xml')]
     rets = [n for n in g.nodes if n.kind == 'return']
-    starts = [m for m, lab in g.succ[t] if lab == 'T']
-    bad = None
-    for s in starts:
-        bad = bad or g.must_pass(s, rets, scans, kinds='nTF')
-    # `return defuse_xml(fp)` is itself a scan node
-    ctx.ob(rule, 'when defusing applies every path to a return passes defuse_xml(…) (or raises)', f.loc(t.ast), bad is None and len(scans) >= 2,
-           '' if bad is None else 'path: ' + ' -> '.join(f'{x.kind}@{x.lineno}' for x in bad[:10]), key=f'{RES}.open|scan')
+    # edges that can only be taken when defusing does NOT apply
+    off = set()
+    for n in tests:
+        if atom_forces(n.ast.test, D, True, True):
+            off.add((n, 'F'))          # the test is true whenever is_defused() is: its False branch means "not defused"
+        if atom_forces(n.ast.test, D, True, False):
+            off.add((n, 'T'))
+    live = reach_cut(g, [g.entry], off, avoid=scans, kinds='nTF')
+    bad = [r for r in rets if r in live and r not in scans]
+    det = ''
+    if bad:
+        conj = [text(n.ast.test) for n in tests if (n, 'F') not in off and (n, 'T') not in off]
+        det = (f'the return at line {bad[0].lineno} is reachable with is_defused() true and without defuse_xml(…)'
+               + (f': the scan is additionally conditioned by `{conj[0][:70]}` - e.g. a resource that is re-opened (every pass over a lazy resource '
+                  're-reads the file or URL) is parsed unscanned' if conj else ''))
+    ctx.ob(rule, 'when defusing applies every path to a return passes defuse_xml(…) (or raises)', f.loc(t.ast), not bad and len(scans) >= 2, det,
+           key=f'{RES}.open|scan')
     # the test is on every path to every return of the outer function
     w = g.must_pass(g.entry, rets, tests, kinds='nTF')
     ctx.ob(rule, 'the is_defused() test lies on every path to a return of open()', f.loc(t.ast), w is None, '', key=f'{RES}.open|test-dominates')
-    # the rewind branch returns the scanner's result
-    rr = [n for n in rets if n in scans]
-    ok = bool(rr) and all(text(n.ast.value).startswith('defuse_xml(fp') for n in rr)
-    ctx.ob(rule, 'the rewind branch returns what the scanner returns (possibly a buffered wrapper)', f.loc(), ok, '', key=f'{RES}.open|returns-scanner')
-    # second-open branch scans the same URL
+    # the rewind branch hands on what the scanner returns (possibly a buffered wrapper), not the raw stream
+    rd = g.reaching_defs()
     for n, c in call_nodes(g, lambda c: text(c.func) == 'defuse_xml'):
-        if n not in rr:
-            ok = any(x.kind == 'with' and 'open_url(self.url)' in text(x.ast.items[0].context_expr) for x in g.nodes) and text(c.args[0]) == '_fp'
+        a0 = text(c.args[0]) if c.args else ''
+        if a0 == 'fp':
+            if n.kind == 'return':
+                ok = text(n.ast.value).startswith('defuse_xml(fp')
+            else:
+                tg = text(n.ast.targets[0]) if isinstance(n.ast, ast.Assign) and len(n.ast.targets) == 1 else None
+                ok = tg is not None and text(n.ast.value).startswith('defuse_xml(fp') and \
+                    any(r.ast.value is not None and text(r.ast.value) == tg and n in rd[r].get(tg, set()) for r in rets)
+            ctx.ob(rule, 'the rewind branch returns what the scanner returns (possibly a buffered wrapper)', f.loc(c), ok, '', key=f'{RES}.open|returns-scanner')
+        else:
+            # second-open branch scans the same URL
+            ok = any(x.kind == 'with' and 'open_url(self.url)' in text(x.ast.items[0].context_expr) for x in g.nodes) and a0 == '_fp'
             ctx.ob(rule, 'the non-seekable branch scans a second stream of the same URL', f.loc(c), ok, '', key=f'{RES}.open|second-open')
     # loaders get their stream only through the manager / open
     mg = ctx.idx.cls('xmlschema.resources.xml_resource.XMLResourceManager')
